@@ -350,6 +350,14 @@ class Sim:
                                      [f'http://me/{epr}'])
             self.local[EPRS[epr]] = {'types': ['T1'], 'scopes': [f'http://a.b/{epr}/x']}
             expect_out = [('Hello', EPRS[epr])]
+        elif kind == 'publish2':
+            # the same endpoint is published again with other scopes (the device moved): from now on only the new ones count
+            _, epr = ev
+            from sdc11073.xml_types import wsd_types as wt
+            self.wsd.publish_service(EPRS[epr], [etree.QName('urn:t', 'T1')], wt.ScopesType(f'http://a.b/{epr}/second'),
+                                     [f'http://me/{epr}'])
+            self.local[EPRS[epr]] = {'types': ['T1'], 'scopes': [f'http://a.b/{epr}/second']}
+            expect_out = [('Hello', EPRS[epr])]
         elif kind == 'clear':
             if EPRS[ev[1]] not in self.local:
                 return 'disabled', []
@@ -422,6 +430,8 @@ def alphabet(quick):
         evs.append((kind, 'A', 3, 'full', False))
     if quick:
         evs += [('hello', 'B', 1, 'full', True), ('pmatch', 'B', 2, 'full', True)]
+    evs += [('publish2', 'A'), ('probe', None, 'http://a.b/A/second', None),
+            ('probe', None, 'http://a.b/A/x', 'http://docs.oasis-open.org/ws-dd/ns/discovery/2009/01/strcmp0')]
     evs += [('bye', 'A'), ('bye', 'B'), ('repeat',), ('repeat', 2), ('callback', 'raises'), ('callback', 'ok'), ('publish', 'A'), ('publish', 'B'), ('clear', 'A'),
             ('probe', None, None, None), ('probe', ['T1'], None, None), ('probe', ['T9'], None, None),
             ('probe', ['T1'], 'http://A.B/A', None), ('probe', None, 'http://a.b/B/x/y', None), ('probe', None, 'HTTP://a.b/A', None),
@@ -492,6 +502,9 @@ def run(ctx):
         jobs += hist.sequences(evs, depth)
     # application callback that raises / behaves: every announcement, one further event, then the announcement's datagram
     # again (its id is still remembered: nothing may happen, whatever the callback did the first time)
+    # publish, publish again with other scopes (in both orders), then every probe
+    probes = [e for e in evs if e[0] == 'probe']
+    jobs += [[('publish', 'A'), ('publish2', 'A'), pr] for pr in probes] + [[('publish2', 'A'), ('publish', 'A'), pr] for pr in probes]
     ann = [e for e in evs if e[0] in ('hello', 'pmatch', 'rmatch')]
     second = [e for e in evs if e[0] in ('bye', 'hello', 'probe') and (len(e) < 4 or e[3] == 'full')]
     for mode in ('raises', 'ok'):
